@@ -55,8 +55,13 @@ def main():
     rc, o = sh("go build ./...", cwd=WT)
     ran.append("with patch: go build ./... -> %s" % ("ok" if rc == 0 else "FAILED"))
     ok_build = rc == 0
-    rc, o = sh("go test -mod=mod -vet=off -count=1 ./... 2>&1 | grep -v 'no test files'", cwd=WT)
-    bad = [l for l in o.splitlines() if not l.startswith("ok")]
+    # pkg/test binds the fixed ports 2500 / 9000: one suite at a time (flock), and a run that lost a port to somebody else's suite is repeated
+    for attempt in range(4):
+        rc, o = sh("flock /tmp/seedck/suite.lock go test -mod=mod -vet=off -count=1 ./... 2>&1 | grep -v 'no test files'", cwd=WT)
+        bad = [l for l in o.splitlines() if not l.startswith("ok")]
+        if not bad or "address already in use" not in o:
+            break
+        time.sleep(20 + 15 * attempt)
     ok_suite = not bad
     ran.append("with patch: go test -mod=mod -vet=off -count=1 ./... -> %s" % ("ok for every package" if ok_suite else "NOT ok: " + "; ".join(bad[:5])))
     for f in demo_files:
